@@ -149,6 +149,9 @@ func init() {
 							facts.absorb(c, Facts(c, f).At(cv.Block()), 0)
 							lo, okLo := lowerBound(cv.X, facts, map[ssa.Value]bool{})
 							hi, okHi := upperBound(cv.X, facts)
+							if !okLo && strconvDigitsOnly(c, f, call) {
+								lo, okLo = 0, true // digits only: no sign
+							}
 							if okLo && okHi {
 								max := int64(1)<<uint(db-1) - 1
 								if du && db < 64 {
